@@ -3,4 +3,4 @@ Require Extraction.
 Require Import ExtrOcamlBasic.
 From NV Require Import Proto.CopCodec gen.CopConst.
 Extraction "../build/extract/ex_c15.ml" ser ser_buf ser_size deser_a deser_r deser build_request build_request_cap parse_request
-  parse_header frame recv_msg parse_reply reply_payload call_cop call_inproc transferableb value_eqb REQ_BUF_SIZE.
+  parse_header frame recv_msg parse_reply build_reply call_cop call_inproc transferableb value_eqb REQ_BUF_SIZE.
